@@ -253,5 +253,95 @@ class Invariance(Stream):
         return None
 
 
+class RenderShift(Stream):
+    """rendering level: score % t and score.o(k) against the rendered note events (python oracle on get_notes)"""
+    name = "render_shift"
+    checker = None
+    pair = "property oracle on get_notes(score % t), get_notes(score.o(k)) vs get_notes(score)"
+    quick, thorough = 500, 8000
+
+    def gen(self, rng, n):
+        from harness import score_gen as sg
+        for _ in range(n):
+            sc = sg.rand_score(rng, max_chords=4)
+            md = rng.choice(MODES)
+            sc = [dict(c, tmode=md) for c in sc]
+            yield {"score": sc, "t": {"deg": rng.randrange(12), "mode": md, "oct": rng.choice([0, 0, 1, -1])}, "k": rng.randrange(-2, 3)}
+
+    def impl(self, case):
+        from harness import score_gen as sg
+        def f():
+            sc = sg.mk_rscore(case["score"])
+            base = sg.merge_rows(sg.impl_rows(sc))
+            mod = sg.merge_rows(sg.impl_rows(sc % mk_ton(case["t"])))
+            octv = sg.merge_rows(sg.impl_rows(sc.o(case["k"])))
+            return {"base": base, "mod": mod, "oct": octv, "tracks": list(dict.fromkeys(nm for c in case["score"] for nm, _ in c["parts"]))}
+        return mlang.guarded(f)
+
+    @staticmethod
+    def part_class(score, nm):
+        """'relative' = every pitch of the part is chord-relative (relative notes rooted in a chord-relative note),
+        'free' = only absolute/drum notes, None = mixed (not claimed)"""
+        kinds, rooted, ok = set(), False, True
+        for c in score:
+            part = dict((a, b) for a, b in c["parts"]).get(nm)
+            if part is None:
+                rooted = False
+                continue
+            for n in part:
+                if n["kind"] in "rl":
+                    continue
+                if n.get("dir"):
+                    if not rooted:
+                        ok = False
+                    kinds.add("rel")
+                else:
+                    kinds.add(n["kind"])
+                    rooted = n["kind"] in "shcb"
+                    if n["kind"] in "ad":
+                        rooted = False
+        if not ok:
+            return None
+        if kinds <= set("shcb") | {"rel"}:
+            return "relative"
+        if kinds <= set("ad"):
+            return "free"
+        return None
+
+    def spec(self, case, r):
+        if mlang.is_exc(r):
+            if "IndexError" in str(r):
+                return None
+            return {"sig": "render-shift-raises", "msg": str(r)}
+        t, k = case["t"], case["k"]
+        for i, nm in enumerate(r["tracks"]):
+            cls = self.part_class(case["score"], nm)
+            b, m, o = r["base"].get(i, []), r["mod"].get(i, []), r["oct"].get(i, [])
+            if [x[1:] for x in b] != [x[1:] for x in m] or [x[1:] for x in b] != [x[1:] for x in o]:
+                return {"sig": "transposition-changes-timing", "msg": f"part {nm}"}
+            if cls == "relative":
+                d = t["deg"] + 12 * t["oct"]
+                if [x[0] + d for x in b] != [x[0] for x in m]:
+                    return {"sig": "score-modulation-interval", "msg": f"part {nm}: {[x[0] for x in b][:8]} -> {[x[0] for x in m][:8]}, expected +{d}"}
+            if cls == "free" and [x[0] for x in b] != [x[0] for x in m]:
+                return {"sig": "score-modulation-moves-absolute", "msg": f"part {nm}"}
+            # Score.o(k) raises the melodies: s h c b a move by 12k, drums and relative notes do not
+            if cls in ("relative", "free") and not nm.startswith("drums"):
+                if not any(n.get("dir") for c in case["score"] for a, notes in c["parts"] if a == nm for n in notes):
+                    if [x[0] + 12 * k for x in b] != [x[0] for x in o]:
+                        return {"sig": "score-octave", "msg": f"part {nm}: o({k})"}
+        return None
+
+    def hist_keys(self, case, r):
+        if mlang.is_exc(r):
+            return ["render-exc"]
+        return ["class=" + str(self.part_class(case["score"], nm)) for nm in r["tracks"]]
+
+    def shrink(self, case):
+        from harness import score_gen as sg
+        for s in sg.shrink_score(case["score"]):
+            yield dict(case, score=s)
+
+
 def streams():
-    return [TonAlgebra(), Modulate(), Invariance()]
+    return [TonAlgebra(), Modulate(), Invariance(), RenderShift()]
